@@ -339,7 +339,7 @@ pub fn property(_ctx: &Ctx) -> Property {
         id: "C13",
         rule: "part sample: images 1..8 x 1..8 of random premultiplied texels (plus position-coded images), Pad/Repeat, Nearest/Bilinear, alpha in {1,0.5,uniform}, CTM and source transform each from {identity, integer translation (negative, beyond the image), fractional translation, scale 0.2-3, rotation x scale, integer scales 2/3/5/-1}, surfaces 2..16 px, rendered with a full-surface Src fill. Oracle: f64 texel addressing M(pixel centre) (inverse CTM then source transform): nearest = texel(floor) with clamp / euclidean wrap, either neighbour accepted within the 16.16 epsilon; bilinear within [min-2,max+2] of the four texels around (u-0.5,v-0.5), the exact texel at exactly representable texel centres; integer translations exact for both filters; alpha scaling within 1/255 (exact at alpha 1). part draw: draw_image_at at integer (exact texel placement) and fractional positions and draw_image_with_size_at with random sizes; pixels wholly outside the rectangle untouched, inside by the bilinear rule. Non-trivial: image >= 2x2 with >= 2 distinct texels and (some sample outside the image or a non-integer-translation matrix); distinct by hash of the case.",
         assumptions: vec!["sampling epsilon (px+py+2)/65536 + 1e-4 (+4e-6 x coordinate scale) for the 16.16 matrix and the f32 inverse", "pixels straddling the rectangle edge of draw_image_* are not judged"],
-        parts: vec![part("sample", 20_000, 800_000, strategy, check), part("draw", 10_000, 300_000, draw_strategy, check_draw)],
+        parts: vec![part("sample", 100_000, 2_000_000, strategy, check), part("draw", 40_000, 600_000, draw_strategy, check_draw)],
         min_class_fraction: vec![
             ("sample", "shader:integer-translation", 0.05),
             ("sample", "shader:nearest", 0.1),
